@@ -15,7 +15,8 @@ CONSTANTS Limits, Sizes, MaxBs, Overs, Schemes, Cleans, Modes, Freqs, Intervals,
           DayLen, DayOff, DailyOff, U, UOff, MaxOps, MaxRestarts,
           FixDaily,      \* TRUE: next daily point = next calendar HH:MM after the record (the proposed repair)
           Tolerated,     \* contract clauses not counted in this configuration (known deviations)
-          Export
+          Export,        \* TRUE: print every history of exactly ExportDepth operations (with the predicted directory)
+          ExportDepth
 VARIABLES cf,            \* configuration of this history
           dir, created, fsize, nextRot, openTs, alive,
           szs,           \* sizes of the statements written so far (id = position)
@@ -165,5 +166,5 @@ NoTimeSplit == ~(cf.limit = 0 /\ \E nm \in DOMAIN dir : nm # Cur)
 NoSizeSplitUnderTime == ~(cf.freq # 0 /\ cf.limit # 0 /\ alive /\ nextRot = InitialPoint(hist[1].t) /\ \E nm \in DOMAIN dir : nm # Cur)
 
 StateView == <<cf, dir, created, fsize, nextRot, openTs, alive, szs, now, nops, nrest, c>>
-ExportA == (Export /\ nops' = MaxOps) => PrintT("BEH " \o ToJson([cf |-> cf, ops |-> hist']))
+ExportA == (Export /\ nops' = ExportDepth) => PrintT("BEH " \o ToJson([cf |-> cf, ops |-> hist']))
 =============================================================================
